@@ -507,7 +507,7 @@ def run(chk):
         "AsyncResult.set stores the value and marks the result ready without switching; AsyncResult.get returns the stored value once ready",
         "heapq on a list is a multiset whose [0]/heappop is a minimum w.r.t. job.__lt__ (strict total order on pushed jobs by (priority, serial): C17)",
         "the plugin object of a connection is not used after shutdown() (handle_client ends)",
-        "automatically assigned integer ids (serials) do not collide with explicit ids in use (mwlib uses string ids)",
+        "automatically assigned integer ids (serials) do not collide with explicit ids in use: assumed in the proofs (ids are abstract); mwlib's own ids are strings, and for integer ids supplied by clients push() now keeps the counter above them (fix in DESIGN 4) - that case is covered by the bounded history family with an explicit integer id only",
         "job ids are abstracted to integers (0 = None); channels to integers",
         "rely of a puller suspended in AsyncResult.get = closure of the guarantees G1, G2, G5 (obligations of every segment and invariants of every state-modifying loop) + 'a connection serves one request at a time' + 'the handed job was unfinished at hand-over' (pushjob contract, call-site preconditions verified in C17)",
     ]
